@@ -34,7 +34,10 @@ ASSUME = [
     "identifier strings are ASCII printable without whitespace; ids and labels of the theorems consist of word characters",
     "current revisions handed to the relative forms are full revision ids",
 ]
-RULE = ("10 fixed histories (design-time witnesses, all-digit ids 0/0000/0001, label-propagation shapes) + a 13-deep linear history with offsets of "
+RULE = ("every case's lookups are run TWICE on the real code: on the loaded map (compared with the model) and on a map built "
+        "incrementally (half loaded, the rest by RevisionMap.add_revision, parents first), whose answers must be the loaded map's "
+        "(multi-results as sets) - a differing answer replaces the loaded one in the observation and fails the comparison || "
+        "10 fixed histories (design-time witnesses, all-digit ids 0/0000/0001, label-propagation shapes) + a 13-deep linear history with offsets of "
         "one to three digits (id+10, label@id+11, -12, +25 ...) + seeded random histories (quick 90, thorough 1400) "
         "of 1-5 revisions (thorough: up to 6) whose ids are strings of length 2-6 over {a,b,c} (every fifth history: over {0,1,a} "
         "with the all-digit ids 0, 00, 0000, 0001, 1, 12, 007, 10 mixed in) built to "
@@ -432,6 +435,20 @@ def run_case(h):
         out.append(o)
         if any("ok" in x and any(e and e.startswith("id:") for e in x["ok"]) for x in (o[0], o[1], o[3], o[4])):
             nontrivial = True
+    # the same lookups on a map that was BUILT INCREMENTALLY (half of the history loaded, the rest handed to
+    # RevisionMap.add_revision one by one, parents first: what a long-lived ScriptDirectory holds after
+    # generate_revision): the answers must be those of the loaded map (multi-results as sets).  The first lookup that
+    # differs replaces the loaded map's answer in the observation, so the comparison with the model fails on it.
+    incr = _incremental_obs(h, revs, cur) if labels else None
+    incr_diff = None
+    if incr is not None:
+        for qi, (o1, o2) in enumerate(zip(out, incr)):
+            for ei, (a, b) in enumerate(zip(o1, o2)):
+                if ei == 2 and "ok" in o1[0] and len(o1[0]["ok"]) > 1 and "ok" in a and "ok" in b and set(b["ok"]) <= set(o1[0]["ok"]):
+                    continue      # as_revision_number of several heads returns rev[0] of a tuple in set order: any member
+                if _canon_obs(a) != _canon_obs(b) and incr_diff is None:
+                    incr_diff = {"query": h["queries"][qi], "entry": ei, "loaded": a, "incremental": b}
+                    o1[ei] = b
     cin = "(mkIn %s %s %s %s)" % (
         cf.lst("(mkS %s %s %s %s)" % (S(r["id"]), cf.lst(S(x) for x in r["down"]),
                                       cf.lst(S(x) for x in r["deps"]), cf.lst(S(x) for x in r["labels"]))
@@ -444,7 +461,61 @@ def run_case(h):
         cf.lst("(mkObs %s)" % " ".join(_coq_outcome(x) for x in o) for o in out))
     nlab = sum(len(r["labels"]) for r in revs)
     shape = "n%d-l%d-%s%s" % (len(revs), nlab, "cur" if cur else "abs", ("-affected" if h.get("affected") else "") + ("-dgabs" if h.get("dgabs") else ""))
-    return dict(cin=cin, cout=cout, out={"oracle": oracle, "labels": labels, "obs": out}, nontrivial=nontrivial, shape=shape)
+    res = {"oracle": oracle, "labels": labels, "obs": out}
+    if incr_diff:
+        res["incremental_map_differs"] = incr_diff
+    return dict(cin=cin, cout=cout, out=res, nontrivial=nontrivial, shape=shape + ("-incr" if incr is not None else ""))
+
+
+def _canon_obs(x):
+    return ("err", x["err"]) if "err" in x else ("ok", tuple(sorted(str(e) for e in x["ok"])), x.get("label"))
+
+
+def _incremental_obs(h, revs, cur):
+    """the five lookups of every query on a map built by add_revision; None when the history cannot be built that way"""
+    from alembic.script import revision as R
+    from alembic.script.base import ScriptDirectory
+    tup = lambda xs: tuple(xs) if xs else None
+    ids = {r["id"] for r in revs}
+    if len(ids) != len(revs):
+        return None
+    order, placed, rest = [], set(), list(revs)
+    while rest:                                            # parents (down revisions and dependencies) first
+        nxt = [r for r in rest if all((p in placed) or (p not in ids) for p in list(r["down"]) + list(r["deps"]))]
+        if not nxt:
+            return None
+        for r in nxt:
+            order.append(r); placed.add(r["id"])
+        rest = [r for r in rest if r["id"] not in placed]
+    if any(p not in ids for r in revs for p in list(r["down"]) + list(r["deps"])):
+        return None                                        # depends_on written as a label / partial id: loader-only
+    mk = lambda r: R.Revision(r["id"], tup(r["down"]), dependencies=tup(r["deps"]), branch_labels=tup(r["labels"]))
+    k = len(order) // 2
+    first = [mk(r) for r in order[:k]]
+    m = R.RevisionMap(lambda: first)
+    try:
+        m._revision_map
+        for r in order[k:]:
+            m.add_revision(mk(r))
+    except Exception:
+        return None
+    sd = ScriptDirectory.__new__(ScriptDirectory)
+    sd.revision_map = m
+
+    def num(q):
+        r = sd.as_revision_number(q)
+        return None, ([] if r is None else list(r) if isinstance(r, tuple) else [r])
+
+    def up(q):
+        with sd._catch_revision_errors():
+            return None, list(m._parse_upgrade_target(cur, q, True))
+
+    def down(q):
+        with sd._catch_revision_errors():
+            lbl, rev = m._parse_downgrade_target(cur, q, True)
+            return lbl, [rev]
+    return [[_observe(lambda: (None, list(sd.get_revisions(q)))), _observe(lambda: (None, [sd.get_revision(q)])),
+             _observe(lambda: num(q)), _observe(lambda: up(q)), _observe(lambda: down(q))] for q in h["queries"]]
 
 
 def _coq_elem(e):
